@@ -11,6 +11,7 @@ from pyvc.unit import unit
 DEX = "androguard/core/dex/__init__.py"
 TYPES = "androguard/core/dex/dex_types.py"
 META = {
+    "technique": 'contract-based deductive verification: symbolic execution of the real functions against sidecar contracts (z3/cvc5) for the proved units; bounded contract evaluation (enumerated scope / independent writer) for the rest',
     "level": "other",
     "partial": True,
     "level_text": "Proof (closed evaluation, no inputs): TypeMapItem.determine_load_order() terminates, is total and injective on "
